@@ -411,6 +411,14 @@ func genC12(t *rapid.T) (*c12Scenario, []string) {
 func runC12(sc *c12Scenario, nicks, chans []string) *Violation {
 	st := state.NewTracker(sc.Me)
 	m := model.NewTracker(sc.Me)
+	// every returned value must keep equalling what was returned, whatever the tracker does later
+	type kept struct {
+		step      int
+		op        trOp
+		got, copy trResult
+	}
+	var retained []kept
+	defer func() { retained = nil }()
 	for i, o := range sc.Ops {
 		var real trResult
 		var pan interface{}
@@ -427,6 +435,17 @@ func runC12(sc *c12Scenario, nicks, chans []string) *Violation {
 		}
 		if d := probeTracker(st, m, nicks, chans); d != "" {
 			return violationf("C12", "after step %d %s: %s", i, o, d)
+		}
+		if real.Nick != nil || real.Chan != nil || real.Privs != nil {
+			retained = append(retained, kept{i, o, real, deepCopyResult(real)})
+			if len(retained) > 40 {
+				retained = retained[1:]
+			}
+		}
+		for _, k := range retained {
+			if !sameResultValue(k.got, k.copy) {
+				return violationf("C12", "the result of step %d %s changed after it was returned, when step %d %s ran: it now reads nick=%s chan=%s privs=%s", k.step, k.op, i, o, fmtNick(k.got.Nick), fmtChan(k.got.Chan), fmtPrivs(k.got.Privs, k.got.OK))
+			}
 		}
 	}
 	return nil
